@@ -217,3 +217,10 @@ Proof.
   vm_compute in E. injection E as <- _. vm_compute. repeat split; try reflexivity. discriminate.
 Qed.
 Print Assumptions c06_latency_term_is_needed.
+
+(* ... and when the plugin writes nothing inside OnEstablished the two runners perform exactly the same actions *)
+Theorem c06_op62_exact : forall cf pl ins xs,
+  pl_est_writes pl = [] -> xs_pending xs = [] -> forallb no_timer ins = true ->
+  snd (xrun_auto cf pl xs ins) = snd (conn_run_auto cf pl (ts_conn (xs_t xs)) ins).
+Proof. exact xrun_auto_exact. Qed.
+Print Assumptions c06_op62_exact.
